@@ -2,6 +2,7 @@
 lean/MgModel/C19/FlowCtl.lean; tie B: harness/c19/seq_flowctl.c against the real
 flow_controller.c / fast_flow_controller.c / time_counter.c."""
 import itertools
+import json
 import vlib
 
 PROOFS = ["MgProof.C19.Lemmas", "MgProof.C19.Props"]
